@@ -31,6 +31,10 @@ NODE = ("class", "Node", [("val", "int"), ("tags", "[int...]"), ("next", "Self?"
          ("add", [("d", "int")], "int", [("expr", M("self", "inc")), ("return", ("bin", "+", SF("val"), V("d")))]),
          ("tag", [("t", "int")], None, [("if", ("bin", "<", M(SF("tags"), "len"), I(2)), [("expr", M(SF("tags"), "push", V("t")))], None)]),
          ("link", [("o", "Self")], None, [("setfield", V("self"), "next", V("o"))]),
+         # list-valued field stores: share another object's list, replace the list by a fresh one (equal contents, other identity)
+         ("adopt", [("o", "Self")], None, [("setfield", V("self"), "tags", F("o", "tags"))]),
+         ("reset", [], None, [("setfield", V("self"), "tags", ("list", []))]),
+         ("copytags", [], None, [("setfield", V("self"), "tags", M(SF("tags"), "clone"))]),
          ("unlink", [], None, [("setfield", V("self"), "next", ("nil",))]),
          # field stores inside nested control flow, with simple right-hand sides and binary conditions
          ("clamp", [("lo", "int"), ("hi", "int")], None,
@@ -74,6 +78,7 @@ TEMPLATES["graph"] = dict(
          ("expr", M("b", "link", V("a"))), ("expr", M("a", "link", V("a"))), ("expr", M("a", "unlink")),
          ("print", M("a", "next_val")), ("print", M("b", "next_val")),
          lambda k: [asg(f"r{k}", M(M("a", "inc"), "inc")), ("print", ("is", V(f"r{k}"), V("a")))],
+         ("setfield", V("a"), "tags", F("b", "tags")), ("expr", M("b", "adopt", V("a"))), ("expr", M("a", "reset")), ("expr", M("c", "copytags")),
          ("print", F("a", "val")), ("print", F("c", "tags")), ("setfield", V("a"), "val", I(2)), ("setfield", V("c"), "val", I(0)),
          ("expr", M(F("a", "leaf"), "bump")), ("print", F(F("b", "leaf"), "n")), ("setfield", V("b"), "leaf", F("a", "leaf")),
          lambda k: [asg(f"lf{k}", F("c", "leaf")), ("expr", M(f"lf{k}", "bump"))],
@@ -88,6 +93,7 @@ TEMPLATES["graph"] = dict(
                call("nis", V("c"), V("a")), call("nis", V("c"), V("b")),
                M("ns", "len"), call("at0", V("ns"), V("a")), call("at0", V("ns"), V("b")), call("at0", V("ns"), V("c"))],
     cap_len=("ns", 2),
+    same_container=[("a", "tags"), ("b", "tags"), ("c", "tags")],
 )
 
 # a second shape: three classes, object-valued constructor parameter, optional class field set through a method, a method
@@ -129,7 +135,7 @@ class C08(EHistCheck):
     thorough_cap_s = 40 * 60
     rule = ("breadth-first search over histories of constructions, aliasings, passing to / returning from functions, storing in / reading "
             "from a list, method calls (incl. a method returning Self, chained calls, a method calling another method), field reads and "
-            "writes (scalar, list, optional-class and class fields) and `is` tests on two class graphs (Node/Leaf with a self-referential "
+            "writes (scalar, list, optional-class and class fields; a list field is shared with another object's, replaced by a fresh empty list and by a clone of itself) and `is` tests on two class graphs (Node/Leaf with a self-referential "
             "optional link and a shared sub-object; Pair/Leaf with object-valued constructor parameters, swapping and fresh sub-objects); "
             "model = reference interpreter with records of cells; states de-duplicated on the values of observer expressions that expose "
             "every field, every identity relation between the named references and the link structure; every transition replayed on the real CLI.")
